@@ -82,7 +82,7 @@ def shardRaw (limit : Nat) (al : Option Nat) (thr : Nat) (ts : List α) : List (
 /-- `_shard_tensors` of `_safetensors/__init__.py` (with a limit):
     `current_shard_size + nbytes > max and shards[-1]` (since fix D62, /repo bd663f8; before it
     the code tested `current_shard_size > 0`, which let zero-size tensors share a shard with an
-    oversized one; see `shardStGoUnfixed` and `C07_D62_witness`). -/
+    oversized one; the witness is an `example` in Props/C07). -/
 def shardStGo (limit : Nat) : List α → Nat → List α → List (List α)
   | cur, _, [] => [cur]
   | cur, sz, t :: rest =>
@@ -95,16 +95,6 @@ def shardSt (limit : Option Nat) (ts : List α) : List (List α) :=
   match limit with
   | none => [ts]
   | some l => shardStGo size l [] 0 ts
-
-/-- the safetensors sharder as it was before fix D62 (`current_shard_size > 0`), kept only to
-    state the defect -/
-def shardStGoUnfixed (limit : Nat) : List α → Nat → List α → List (List α)
-  | cur, _, [] => [cur]
-  | cur, sz, t :: rest =>
-    if sz + size t > limit ∧ sz > 0 then
-      cur :: shardStGoUnfixed limit [t] (0 + size t) rest
-    else
-      shardStGoUnfixed limit (cur ++ [t]) (sz + size t) rest
 
 end Shard
 
@@ -338,6 +328,16 @@ def dataFiles (bs : List (List Nat)) (maxShard : Option Nat) (al : Option Nat) (
       parallelImage (totalSize (computeInfos al athr (sh.map List.length)))
         (reorder (writesOf al athr sh) order)
 
+/-- bytes of the tensors `unload_from_model` externalises, in the order it collects them
+    (`tensors_to_externalize`, 1061-1064); `vb` pairs every initializer with its `tobytes()` -/
+def extBytes (vb : List (Init × List Nat)) (thr : Int) : List (List Nat) :=
+  (splitRaw thr (vb.map (·.1))).1.map fun k => (vb.getD k default).2
+
+/-- the data files of a whole raw-backend save -/
+def saveRawFiles (vb : List (Init × List Nat)) (thr : Int) (maxShard : Option Nat)
+    (al : Option Nat) (athr : Nat) (sched : Option (List Nat)) : List (List Nat) :=
+  dataFiles (extBytes vb thr) maxShard al athr sched
+
 /-- file name of 0-based shard `i` out of `total` for the raw backend (826-828) -/
 def rawShardName (base : List Char) (i total : Nat) : List Char :=
   shardFilename base (i + 1) total none
@@ -358,30 +358,90 @@ def assignAll (st : Store) : List (Nat × Option Nat) → Store
   | [] => st
   | (v, t) :: rest => assignAll (st.set v t) rest
 
-/-- where `save` stops with an exception -/
-inductive Fail
-  | none          -- returns normally
-  | early         -- argument validation in `save` itself, before anything is collected
-  | unload        -- inside `unload_from_model` before any re-pointing (validation, loading small
-                  -- external tensors, shard pre-flight, a tensor raising while being written)
-  | serialize     -- `serde.serialize_model` raises (initializers already re-pointed)
-  | protoSave     -- `onnx.save` raises
+/-- places inside the `try` block at which an exception can surface -/
+inductive Phase
+  | validate   -- option validation / shard pre-flight (`_validate_write_options`, FileExistsError)
+  | loadMem    -- loading one small external tensor into memory (`convert_tensors_from_external`)
+  | write      -- materialising / writing one tensor (`tofile`, `tobytes`)
+  | serialize  -- `serde.serialize_model`
+  | protoSave  -- `onnx.save`
 deriving Repr, DecidableEq, Inhabited
 
-/-- State of the value cells after `save(model, …, external_data=…)`.
-    `inits` = value ids yielded by `graph.initializers.values()` over `model.graphs()`;
-    `repoint` = the assignments `unload_from_model` performs when it gets that far (fresh tensor
-    ids for the positions it replaces — any list over the collected values).
-    Returns the store in the middle (what serialization sees) and at the end. -/
-def saveStore (st : Store) (inits : List Nat) (repoint : List (Nat × Option Nat)) (fail : Fail) :
-    Store × Store :=
-  match fail with
-  | .early => (st, st)
-  | _ =>
-    let saved := inits.map fun v => (v, st v)
-    let mid := match fail with
-      | .unload => st
-      | _ => assignAll st repoint
-    (mid, assignAll mid saved)
+/-- one step of a save: `value.const_value = tensor`, or a point where an exception can surface -/
+inductive Step
+  | assign (v : Nat) (t : Option Nat)
+  | point (ph : Phase)
+deriving Repr, DecidableEq, Inhabited
+
+/-- what `save` remembers before the `try` (value cells, in order) and what it does inside it -/
+structure SavePlan where
+  snapshot : List Nat
+  prog : List Step
+
+/-- `ir.save(model, path, external_data=…)` (`_io.py` 171-199 around `unload_from_model`
+    1035-1085).  Value cells are the positions of the declaration-ordered initializer list; the
+    tensor object created for position `k` is `fresh + k`.  Order of effects as in the source:
+    validation; small external tensors are loaded (kept in a local list); all writes; only then
+    the two assignment loops; serialization; writing the proto.  The snapshot covers every
+    initializer value (also those without a tensor). -/
+def rawPlan (vs : List Init) (thr : Int) (fresh : Nat) : SavePlan :=
+  let (ext, mem) := splitRaw thr vs
+  { snapshot := List.range vs.length
+    prog := [Step.point .validate] ++ mem.map (fun _ => Step.point .loadMem)
+      ++ [Step.point .validate]   -- sharded pre-flight check
+      ++ ext.map (fun _ => Step.point .write)
+      ++ ext.map (fun k => Step.assign k (some (fresh + k)))
+      ++ mem.map (fun k => Step.assign k (some (fresh + k)))
+      ++ [Step.point .serialize, Step.point .protoSave] }
+
+/-- the collection loop of `_save_file` (safetensors, 202-215): a small external tensor is
+    replaced by its in-memory copy at once, in declaration order -/
+def stLoadSteps (thr : Int) : Nat → Nat → List Init → List Step
+  | _, _, [] => []
+  | fresh, k, v :: rest =>
+    (if memStB thr v then [Step.point .loadMem, Step.assign k (some (fresh + k))] else [])
+      ++ stLoadSteps thr fresh (k + 1) rest
+where
+  memStB (thr : Int) (v : Init) : Bool :=
+    v.hasConst && !v.isString && decide ((v.nbytes : Int) < thr) && v.isExternal
+
+/-- `ir.save_safetensors` (394-431 around `_save_file` and `_replace_tensors`): the snapshot
+    holds only the values with a non-string tensor; small external tensors are re-pointed while
+    collecting, then every tensor is materialised and the shard files are written, then the saved
+    values are re-pointed, then `ir.save` serializes and writes the proto. -/
+def stPlan (vs : List Init) (thr : Int) (fresh : Nat) : SavePlan :=
+  let (ext, _) := splitSt thr vs
+  { snapshot := (List.range vs.length).filter fun k =>
+      (vs.getD k default).hasConst && !(vs.getD k default).isString
+    prog := stLoadSteps thr fresh 0 vs
+      ++ ext.map (fun _ => Step.point .write)
+      ++ ext.map (fun k => Step.assign k (some (fresh + k)))
+      ++ [Step.point .serialize, Step.point .protoSave] }
+
+def execSteps (st : Store) : List Step → Store
+  | [] => st
+  | .assign v t :: rest => execSteps (st.set v t) rest
+  | .point _ :: rest => execSteps st rest
+
+/-- index of the `occ`-th (0-based) point of phase `ph` in a program -/
+def pointIndex (ph : Phase) : Nat → List Step → Option Nat
+  | _, [] => none
+  | occ, s :: rest =>
+    if s = Step.point ph then
+      (match occ with
+       | 0 => some 0
+       | occ + 1 => (pointIndex ph occ rest).map (· + 1))
+    else (pointIndex ph occ rest).map (· + 1)
+
+/-- Run a save.  `stop = none`: it returns normally; `stop = some n`: an exception surfaces when
+    `n` steps of the program have completed.  In both cases the `finally` block then assigns
+    the remembered tensor to every remembered value, in order (an attribute store of an object
+    that was there before; it cannot raise).  Returns the store at that moment and at the end. -/
+def saveRun (st : Store) (plan : SavePlan) (stop : Option Nat) : Store × Store :=
+  let done := match stop with
+    | none => plan.prog
+    | some n => plan.prog.take n
+  let mid := execSteps st done
+  (mid, assignAll mid (plan.snapshot.map fun v => (v, st v)))
 
 end IrVerif.Layout
